@@ -458,21 +458,67 @@ impl Default for ListenerCfg {
     }
 }
 
-/// A loopback port nobody else in this process (or a sibling check process) was handed: taken from
-/// a process-wide counter over a pid-dependent range and probed for being bindable.
+/// A loopback port nobody else was handed - neither in this process nor in another harness process running
+/// at the same time (another check, a scratch slot): the range below the ephemeral ports is divided into
+/// blocks of 64, a process owns a block while it holds an exclusive lock on the block's file under
+/// /tmp/verif-ports (released by the kernel when the process ends), and only hands out ports of its own
+/// blocks that are bindable right now. Without this, two checks running side by side could pick the same
+/// port between the probe and the moment the listener (often a child process) binds it.
 pub fn free_port() -> u16 {
-    use std::sync::atomic::{AtomicU32, Ordering};
-    static NEXT: AtomicU32 = AtomicU32::new(0);
+    use std::os::fd::AsRawFd;
     // stay below the ephemeral range (32768..) that the clients' own sockets are drawn from
     const LO: u32 = 10_240;
-    const SPAN: u32 = 21_000;
-    let start = std::process::id().wrapping_mul(997) % SPAN;
+    const BLOCK: u32 = 64;
+    const NBLOCKS: u32 = 328;
+    struct Ports {
+        held: Vec<std::fs::File>,
+        base: u32,
+        pos: u32,
+    }
+    static STATE: Mutex<Option<Ports>> = Mutex::new(None);
+    let mut guard = STATE.lock().unwrap();
+    let st = guard.get_or_insert_with(|| Ports { held: vec![], base: 0, pos: BLOCK });
     loop {
-        let n = NEXT.fetch_add(1, Ordering::Relaxed);
-        let port = (LO + (start + n) % SPAN) as u16;
+        if st.pos >= BLOCK {
+            let _ = std::fs::create_dir_all("/tmp/verif-ports");
+            let start = std::process::id().wrapping_mul(131) % NBLOCKS;
+            let mut claimed = None;
+            for i in 0..NBLOCKS {
+                let k = (start + i) % NBLOCKS;
+                let Ok(f) = std::fs::OpenOptions::new().create(true).write(true).truncate(false).open(format!("/tmp/verif-ports/block-{k}.lock")) else { continue };
+                if unsafe { libc::flock(f.as_raw_fd(), libc::LOCK_EX | libc::LOCK_NB) } == 0 {
+                    claimed = Some((f, k));
+                    break;
+                }
+            }
+            let Some((f, k)) = claimed else { common::machinery("no free block of loopback ports (too many harness processes at once)") };
+            st.held.push(f);
+            st.base = LO + k * BLOCK;
+            st.pos = 0;
+        }
+        let port = (st.base + st.pos) as u16;
+        st.pos += 1;
         if std::net::TcpListener::bind(("127.0.0.1", port)).is_ok() {
             return port;
         }
+    }
+}
+
+/// Raises the soft limit on open files to the hard limit (both ends of every loopback connection live in
+/// this process) and returns the limit now in force.
+pub fn raise_fd_limit() -> u64 {
+    unsafe {
+        let mut r = libc::rlimit { rlim_cur: 0, rlim_max: 0 };
+        if libc::getrlimit(libc::RLIMIT_NOFILE, &mut r) != 0 {
+            return 1024;
+        }
+        if r.rlim_cur < r.rlim_max {
+            let want = libc::rlimit { rlim_cur: r.rlim_max.min(1 << 20), rlim_max: r.rlim_max };
+            if libc::setrlimit(libc::RLIMIT_NOFILE, &want) == 0 {
+                return want.rlim_cur as u64;
+            }
+        }
+        r.rlim_cur as u64
     }
 }
 
